@@ -420,17 +420,22 @@ def _single_path_result(ch: Chain, name: str) -> Optional[str]:
     ev = Evaluator(ch.repo)
     # force the single-chunk arm: n_threads == 1 and one value chunk
     for n in walk_no_nested(ch.wrap_c.node):
-        if isinstance(n, ast.If) and any(
-                isinstance(r.callee, FuncRef) and ch.single in r.callee.funcs for r in _calls_in(ch, n.body)):
-            ev2 = Evaluator(ch.repo)
-            ev2.func = ch.wrap_c
-            env = {"reduce_func_name": cs(name), "counting": cs("count" in name)}
-            out = ev2.exec_block(n.body, env)
-            if out is None:
-                return None
-            v = out.get("result")
-            if isinstance(v, Named):
-                return v.name
+        if not isinstance(n, ast.If):
+            continue
+        # the arm that calls the single-chunk worker directly - whichever way round the test is written
+        for arm in (n.body, n.orelse):
+            direct = [s_ for s_ in arm if isinstance(s_, ast.Assign) and isinstance(s_.value, ast.Call)]
+            if arm and any(isinstance(r.callee, FuncRef) and ch.single in r.callee.funcs and any(r.node is d.value for d in direct)
+                           for r in _calls_in(ch, arm)):
+                ev2 = Evaluator(ch.repo)
+                ev2.func = ch.wrap_c
+                env = {"reduce_func_name": cs(name), "counting": cs("count" in name)}
+                out = ev2.exec_block(arm, env)
+                if out is None:
+                    return None
+                v = out.get("result")
+                if isinstance(v, Named):
+                    return v.name
     return None
 
 
